@@ -123,10 +123,12 @@ Section WithRx.
   | ODelete (shs : list nat) (from : list str) (c : option pred)     (* DELETE / DROP SERIES: all points of the matching
                                                                          series of the listed shards (empty FROM = all measurements) *)
   | ODropM (m : str)                                                  (* DROP MEASUREMENT, all shards *)
+  | ODropShard (sh : nat)                                             (* the shard is deleted (retention) and created again, empty *)
   | OCompactLog (sh : nat)                                            (* TSI: active log file -> level-1 index file *)
   | OCompactLevel (sh lvl : nat)                                      (* TSI: merge the files of a level into the next level *)
   | OSfCompact                                                        (* series-file index compaction *)
   | OSnapshot (sh : nat)                                              (* engine cache -> TSM file (no effect on the set) *)
+  | OSfRoll                                                           (* series file: the active segment is closed, a new one begun *)
   | OReopen.                                                          (* close and reopen the store *)
 
   Definition valid_shard (n sh : nat) : bool := (1 <=? sh) && (sh <=? n).
@@ -140,6 +142,7 @@ Section WithRx.
     | ODelete shs from c =>
         filter (fun p => negb (memb Nat.eqb (fst p) shs && in_from from (fst (snd p)) && eval_opt c (snd p))) st
     | ODropM m => filter (fun p => negb (str_eqb (fst (snd p)) m)) st
+    | ODropShard sh => filter (fun p => negb (Nat.eqb (fst p) sh)) st
     | _ => st
     end.
 
@@ -182,6 +185,10 @@ Section WithRx.
   | QTagVals (m k : str) (c : option pred)         (* SHOW TAG VALUES FROM m WITH KEY = k [WHERE c] *)
   | QSeries (m : str) (c : option pred)            (* series keys of m [WHERE c], whole database *)
   | QShSeries (sh : nat) (m : str) (c : option pred) (* the same for one shard *)
+  | QConv (sh bsz : nat) (small : bool) (m : str) (c : option pred)
+                                                   (* the same, answered by a TSI index built offline from the shard's data
+                                                      (influx_inspect buildtsi: batches of bsz series, log buffer of bsz entries,
+                                                      small = the log file is compacted after every batch) and then opened *)
   | QCard                                          (* exact series cardinality: database, then each shard *)
   | QSfile.                                        (* keys of the live ids of the series file *)
 
@@ -203,6 +210,7 @@ Section WithRx.
                                        (series_of U m c)))
     | QSeries m c => ARows (map series_row (series_of U m c))
     | QShSeries sh m c => ARows (map series_row (series_of (shard_set st sh) m c))
+    | QConv sh _ _ m c => ARows (map series_row (series_of (shard_set st sh) m c))
     | QCard => ANums (N.of_nat (length U) :: map (fun sh => N.of_nat (length (shard_set st sh))) (seq 1 n))
     | QSfile => ARows (map series_row U)
     end.
@@ -230,7 +238,11 @@ Section WithRx.
   Definition wf_ops (ops : list op) : bool := forallb wf_op ops.
   (* a per-shard query names an existing shard *)
   Definition wf_query (n : nat) (q : query) : bool :=
-    match q with QShSeries sh _ _ => valid_shard n sh | _ => true end.
+    match q with
+    | QShSeries sh _ _ => valid_shard n sh
+    | QConv sh bsz _ _ _ => valid_shard n sh && (1 <=? bsz)
+    | _ => true
+    end.
 End WithRx.
 
 (* two answers are the same listing: same rows up to order and repetition / same numbers *)
